@@ -141,8 +141,9 @@ Theorem C13_reload_sequence_safe : forall s todo reqs y,
 Proof. exact reload_sequence_safe. Qed.
 Print Assumptions C13_reload_sequence_safe.
 
-(* main.go's order (parse, ReloadSubnets, NewClientConf, UpdateLatestCCGen), any number of reloads,
-   under the publication hypothesis chain_ok. *)
+(* main.go's order (parse, ReloadSubnets - abort when it fails -, NewClientConf, UpdateLatestCCGen), any
+   number of reloads of which ANY SUBSET may fail (unparsable ClientConf, subnets file that does not load):
+   chain_ok constrains only the publications that load. *)
 Theorem C13_pinned_order_safe : forall s pubs reqs y,
   mem (r_api s) (r_gens s) = true -> chain_ok (r_gens s) pubs = true ->
   yreach (yinit s pinned_order pubs reqs) y ->
@@ -160,6 +161,15 @@ Theorem C13_swapped_order_refuted :
          (mem (q_gen q) (r_gens s) = true \/ (q_dns q = false /\ cc <> None)) -> ok = true).
 Proof. exact swapped_order_refuted. Qed.
 Print Assumptions C13_swapped_order_refuted.
+
+(* Without the abort ("log the failure of ReloadSubnets and carry on") the registrar's generation leaves
+   the installed set as soon as one reload fails. *)
+Theorem C13_continue_past_failed_reload_refuted :
+  ~ (forall s pubs reqs y, mem (r_api s) (r_gens s) = true -> chain_ok (r_gens s) pubs = true ->
+       yreach (yinit s noabort_order pubs reqs) y ->
+       mem (r_api (y_st y)) (r_gens (y_st y)) = true).
+Proof. exact noabort_order_refuted. Qed.
+Print Assumptions C13_continue_past_failed_reload_refuted.
 
 (* Nothing in the reload sequence blocks, and every schedule is finite. *)
 Theorem C13_reload_sequence_never_blocked : forall y,
